@@ -231,6 +231,10 @@ pub fn embedding(name: &str) -> Embedding {
         // near the top of the f64 range (values up to 3 * 2^1022 = 1.3e308): sums of two
         // observations overflow, the observations themselves do not (small-sample quantile, C07/C15)
         "E11" => Embedding { name: "E11", a: 0.0, b: p2(1022) },
+        // far ends of the exponent range: products of two differences of observations underflow
+        // (E12) / overflow (E13); sums and differences themselves stay exact
+        "E12" => Embedding { name: "E12", a: 0.0, b: p2(-600) },
+        "E13" => Embedding { name: "E13", a: 0.0, b: p2(600) },
         "EM1" => Embedding { name: "EM1", a: 0.0, b: 1.0 },
         _ => panic!("unknown embedding {name}"),
     }
